@@ -173,6 +173,10 @@ func do(method, path string, body []byte, hdr map[string]string) response {
 	r.RequestURI = path
 	for k, v := range hdr {
 		r.Header[k] = []string{v}
+		if k == "If-Match" {
+			// a second If-Match field: the handlers read the first one only
+			r.Header[k] = append(r.Header[k], `"/config/ 0000000000000000"`)
+		}
 	}
 	w := httptest.NewRecorder()
 	done := make(chan struct{})
